@@ -177,6 +177,15 @@ func dictStringLengthCases(prop string) {
 			w.Flush()
 			stats["dictstr-length-cases"]++
 			note("nontrivial %x", uint64(L)<<1|uint64(ci))
+			if prop == "C02" && comp == pkg.CompressionNone && L >= 16 {
+				// the specification's rule, judged on the bytes (no reader, no model): a value that is in its
+				// dictionary is written as a reference. S is written three times and S+x once: in an
+				// uncompressed stream the bytes of S occur exactly twice (S itself, and as the front of S+x).
+				if cnt := bytes.Count(cw.buf.Bytes(), long); cnt != 2 {
+					propFail("C02 dict-value-written-again case=%s span names %s with S of %d bytes, no compression: the bytes of S occur %d times in the stream (2 expected: once as S, once as the front of S+x; a value that is in its dictionary is written as a reference)", name, descNames(names, L), L, cnt)
+				}
+				stats["dictstr-byte-count-checks"]++
+			}
 			rd, err := otelstef.NewSpansReader(bytes.NewReader(cw.buf.Bytes()))
 			if err != nil {
 				propFail("%s dictstr-not-readable case=%s %v", prop, name, err)
